@@ -1,15 +1,18 @@
 """C16 - mandoline's plotfile-format slice is a valid 2D plotfile of the plane data."""
 import z3
 from pyvc.vals import *  # noqa
-from pyvc.task import FragmentTask
+from pyvc.task import FragmentTask, Task
+from pyvc.vc import veq
 from props.C01 import ASSUMPTIONS as A01, TRUSTED as T01
 from props.mandoline_kernels import kernel_tasks, kernel_canaries
 
 MM = "amr_kitchen.mandoline.mandoline.Mandoline."
 ASSUMPTIONS = A01 + ["interpolation over reals; the per-level interpolation statements, box selection, slice_box, the global 2D Header "
                      "(writer then real parser on skeletons, with and without a level limit) and the chunking arithmetic are under "
-                     "contract; the NaN bookkeeping of interpolate_bylevel, the level Cell_H text and FAB writing are covered by the "
-                     "bounded run-time layer (np.empty poisoned); where a level has a sample on one side of the plane "
+                     "contract; write_cell_data_at_level is under contract as a whole on a bounded skeleton (three of four boxes out of "
+                     "order, two binary files, symbolic plane data: FAB bytes, offsets, Cell_H text with the extrema rows); the NaN "
+                     "bookkeeping of interpolate_bylevel is covered by the bounded run-time layer (np.empty poisoned); numbers rendered "
+                     "with a round-trip format are equal as text iff equal as values; where a level has a sample on one side of the plane "
                      "only, 'that level's own data' is read as the single available sample",
                      "fragment extraction: the chunking statements of write_cell_data_at_level are executed in isolation "
                      "(everything else of the method is dropped)"]
@@ -53,11 +56,154 @@ class Chunking(FragmentTask):
         ctx.oblige("post.no-empty-file-name-left-over", to_z3(nnames) <= to_z3(nchunks), "X")
 
 
+class DictFS:
+    """ghost file system of WriteLevel: every path is a concrete string, files opened for writing are kept by path"""
+
+    def __init__(self):
+        self.files = {}
+        self.order = []
+
+    def _key(self, ex, path):
+        from pyvc.libos import PathVal
+        if isinstance(path, str):
+            return path
+        if isinstance(path, PathVal) and all(isinstance(x, str) for x in path.parts):
+            return ("/" if path.absolute else "") + "/".join(path.parts)
+        raise Unsupported(f"path that is not concrete in a concrete skeleton: {path!r}")
+
+    def file_id(self, ex, path):
+        k = self._key(ex, path)
+        return z3.IntVal(1000 + sorted(set(list(self.files) + [k])).index(k))
+
+    def open(self, ex, path, mode):
+        from pyvc.libfile import WFile
+        if mode not in ("w", "wb"):
+            raise Unsupported("read access in a write-only skeleton")
+        k = self._key(ex, path)
+        wf = WFile(k, z3.IntVal(len(self.order)), text=(mode == "w"))
+        self.files[k] = wf
+        self.order.append(k)
+        ex.ctx.ghost.setdefault("wfiles", []).append(wf)
+        return wf
+
+
+class WriteLevel(Task):
+    """Mandoline.write_cell_data_at_level as a whole (real code; bounded skeleton: concrete boxes, chunk sizes and field count,
+    symbolic plane data): for the boxes listed, in the order listed,
+      * the binary files Cell_D_0000k hold, chunk by chunk, per box: the 2D FAB header of the box's in-plane index range with
+        the field count, then for every field the F-order values of the plane data subsampled to this level
+        (plane[lo*f + i*f, lo*f + j*f], f = 2**(limit - lv));
+      * Level_lv/Cell_H lists the boxes' in-plane ranges in that order, one FabOnDisk line per box naming ITS file and ITS byte
+        offset, and the min / max rows of box t are the extrema of what was written for box t (row t, not row of the box id).
+    Skeleton: three of four boxes selected out of order; sizes chosen so that the one-megabyte rule gives two files (2 + 1)."""
+    prop = "C16"
+    reach = "S"
+    qual = MM + "write_cell_data_at_level"
+
+    BOXES = [((0, 0, 0), (127, 3, 255)), ((128, 0, 0), (255, 3, 255)), ((0, 4, 0), (127, 7, 255)), ((128, 4, 0), (255, 7, 127))]
+    SEL = [2, 0, 3]
+
+    def __init__(self, lv, limit, nf=2):
+        self.lv, self.limit, self.nf = lv, limit, nf
+        self.name = f"write_cell_data_at_level[lv={lv},limit={limit},nf={nf}]"
+
+    def setup(self, ex):
+        ctx = ex.ctx
+        fs = DictFS()
+        ctx.ghost["fs"] = fs
+        ctx.ghost["minmax_semantics"] = False
+        f = 2 ** (self.limit - self.lv)
+        D = z3.Function("PLANE", z3.IntSort(), z3.IntSort(), z3.IntSort(), z3.RealSort())
+        NX, NY = 256 * f, 256 * f
+        lvdata = [NDArray([NX, NY], lambda ix, c=c: D(z3.IntVal(c), to_z3(ix[0]), to_z3(ix[1])), "f8") for c in range(self.nf)]
+        cells = {self.lv: {"indexes": [[Vec(list(lo), "array"), Vec(list(hi), "array")] for lo, hi in self.BOXES]}}
+        me = Record("amr_kitchen.mandoline.mandoline.Mandoline", limit_level=self.limit, cells=cells, cx=0, cy=2, nfidxs=self.nf)
+        return {"self": me, "args": ["out_plt", self.lv, lvdata, list(self.SEL)], "fs": fs, "D": D, "f": f}
+
+    def post(self, ex, inp, out):
+        from pyvc.strings import str_eq, SStr, FloatAtom
+        from pyvc.libnp import reduce_const
+        ctx = ex.ctx
+        ctx.oblige("raises-nothing", out.kind == "ret", "P", note=str(out.exc) if out.kind != "ret" else "")
+        if out.kind != "ret":
+            return
+        fs, D, f, nf, lv = inp["fs"], inp["D"], inp["f"], self.nf, self.lv
+        rng = [((self.BOXES[b][0][0], self.BOXES[b][0][2]), (self.BOXES[b][1][0], self.BOXES[b][1][2])) for b in self.SEL]
+        size = [(hi[0] - lo[0] + 1) * (hi[1] - lo[1] + 1) for lo, hi in rng]
+        total = sum(s_ * nf * 8 for s_ in size)
+        nfiles = total // 1000000 + 1
+        chunk = max(-(-len(rng) // nfiles), 1)
+        groups = [list(range(i, min(i + chunk, len(rng)))) for i in range(0, len(rng), chunk)]
+        names = [f"Cell_D_{k:05d}" for k in range(len(groups))]
+        want_files = [f"out_plt/Level_{lv}/{n}" for n in names] + [f"out_plt/Level_{lv}/Cell_H"]
+        ctx.oblige("post.files-written", sorted(fs.files) == sorted(want_files), "P", note=f"{sorted(fs.files)} vs {sorted(want_files)}")
+        if sorted(fs.files) != sorted(want_files):
+            return
+        hdr = lambda lo, hi: f"FAB ((8, (64 11 52 0 1 12 0 1023)),(8, (8 7 6 5 4 3 2 1)))(({lo[0]},{lo[1]}) ({hi[0]},{hi[1]}) (0,0)) {nf}\n"
+
+        def box_data(t, c):
+            lo, hi = rng[t]
+            return NDArray([hi[0] - lo[0] + 1, hi[1] - lo[1] + 1],
+                           lambda ix, lo=lo, c=c: D(z3.IntVal(c), (lo[0] + to_z3(ix[0])) * f, (lo[1] + to_z3(ix[1])) * f), "f8")
+        offsets = {}
+        for k, g in enumerate(groups):
+            wf = fs.files[f"out_plt/Level_{lv}/{names[k]}"]
+            pieces = list(wf.suffix)
+            exp = []
+            pos = 0
+            for t in g:
+                offsets[t] = (names[k], pos)
+                h = hdr(*rng[t])
+                exp.append(("text", h, pos))
+                pos += len(h)
+                for c in range(nf):
+                    exp.append(("ser", box_data(t, c), pos))
+                    pos += 8 * size[t]
+            ok = len(pieces) == len(exp) and wf.closed and not wf.text and (wf.nrec == 0 or wf.nrec is None)
+            ctx.structure(f"post.pieces-of-{names[k]}", ok, note=f"{len(pieces)} pieces for {len(exp)}")
+            for q, ((piece, start), e) in enumerate(zip(pieces, exp)):
+                ctx.oblige(f"post.{names[k]}.piece{q}-starts-where-expected", veq(ctx, start, e[2]), "P")
+                if e[0] == "text":
+                    okp = piece[0] == "text" and str_eq(ex, piece[1], e[1])
+                    ctx.oblige(f"post.{names[k]}.piece{q}-is-the-box-header", okp, "P", note=repr(piece[1])[:120])
+                else:
+                    okp = piece[0] == "ser" and piece[2] == "F" and veq(ctx, piece[1], e[1])
+                    ctx.oblige(f"post.{names[k]}.piece{q}-is-the-subsampled-plane-of-the-box-in-F-order", okp, "P")
+        # the level header, as text
+        wf = fs.files[f"out_plt/Level_{lv}/Cell_H"]
+        ctx.structure("post.cell-header-is-a-closed-text-file", wf.text and wf.closed)
+        from pyvc.strings import sconcat
+        got = sconcat(ex, [p[1] for p, _ in wf.suffix]) if wf.suffix else ""
+        red = {}
+
+        def ext(kind, t, c):
+            if (kind, t, c) not in red:
+                bd = box_data(t, c)
+                red[(kind, t, c)] = reduce_const(ex, kind, list(bd.shape), lambda r, bd=bd: bd.elem(tuple(r)))
+            return red[(kind, t, c)]
+        lines = ["1\n", "1\n", f"{nf}\n", "0\n", f"({len(rng)} 0\n"]
+        lines += [f"(({lo[0]},{lo[1]}) ({hi[0]},{hi[1]}) (0,0))\n" for lo, hi in rng]
+        lines += [")\n", f"{len(rng)}\n"]
+        lines += [f"FabOnDisk: {offsets[t][0]} {offsets[t][1]}\n" for t in range(len(rng))]
+        lines += ["\n", f"{len(rng)},{nf}\n"]
+        parts = list(lines)
+        for kind in ("min", "max"):
+            for t in range(len(rng)):
+                for c in range(nf):
+                    parts.append(SStr([FloatAtom(ext(kind, t, c), ".16e")]))
+                    parts.append(",")
+                parts.append("\n")
+            if kind == "min":
+                parts += ["\n", f"{len(rng)},{nf}\n"]
+        exp_text = sconcat(ex, parts)
+        ctx.oblige("post.level-header-text", str_eq(ex, got, exp_text), "P", note=repr(got)[:300])
+
+
 def tasks(tier):
     from props.mandoline_parents import parent_tasks
     from props.mandoline_boxes import box_tasks
     from props.mandoline_parents import kernel_tasks2
-    return kernel_tasks("C16", ["expand"]) + [Chunking()] + parent_tasks("C16") + box_tasks("C16", ["slice"])[:1 if tier == "quick" else 3] + \
+    return kernel_tasks("C16", ["expand"]) + [Chunking(), WriteLevel(0, 1), WriteLevel(1, 1)] + parent_tasks("C16") + box_tasks("C16", ["slice"])[:1 if tier == "quick" else 3] + \
         kernel_tasks2("C16", ("bylevel",)) + __import__("props.roundtrip", fromlist=["slice_header_tasks"]).slice_header_tasks(tier)
 
 
@@ -66,6 +212,12 @@ def canaries(tier):
     from props.mandoline_parents import kernel_canaries2
     from props.roundtrip import slice_header_canaries
     return kernel_canaries(["expand"]) + parent_canaries()[:1] + kernel_canaries2(("bylevel",)) + slice_header_canaries() + [
+        ("level writer: box data cropped instead of subsampled",
+         [("amr_kitchen/mandoline/mandoline.py", "                        data = data[::factor, ::factor]",
+           "                        data = data[:data.shape[0] // factor, :data.shape[1] // factor]")], ["write_cell_data_at_level[lv=0,limit=1,nf=2]"]),
+        ("level writer: minimum taken over the whole plane",
+         [("amr_kitchen/mandoline/mandoline.py", "                        curr_field_min.append(np.min(data))",
+           "                        curr_field_min.append(np.min(arr))")], ["write_cell_data_at_level[lv=1,limit=1,nf=2]"]),
         ("chunking: number of chunks rounded down",
          [("amr_kitchen/mandoline/mandoline.py", "nchunks = -(-len(cell_indexes) // chunk_size)",
            "nchunks = len(cell_indexes) // chunk_size")], ["write_cell_data_at_level.chunking"])]
